@@ -835,7 +835,7 @@ class _Gen:
             ("unary", 1, lambda: f"-{self.atomic(vs, d - 1)}"),
             ("unary", 0.3, lambda: f"+{self.atomic(vs, d - 1)}"),
             ("unary", 0.3, lambda: f"{E()} - -{self.atomic(vs, d - 1)}"),
-            ("pow", 1, lambda: f"{self.atomic(vs, d - 1)}**{rng.choice(['2', '3', '2.0', '(-1)', '-2'])}" if False else f"{self.atomic(vs, d - 1)}**{rng.choice(['2', '3', '2.0'])}"),
+            ("pow", 1, lambda: f"{self.atomic(vs, d - 1)}**{rng.choice(['2', '3', '2.0'])}"),
             ("pow", 0.5, lambda: f"{self.pos(vs, d - 1)}**{rng.choice(['0.5', '1.5', '-1', '(-0.5)', '-2', '(1.0/3)'])}"),
             ("pow", 0.3, lambda: f"-{self.atomic(vs, d - 1)}**2"),
             ("pow", 0.3, lambda: f"{rng.choice(['2', '1.5', '0.5'])}**{sm()}"),
